@@ -6,13 +6,16 @@ use super::*;
 fn c22_native_json_str() {
     let mut bad = Vec::new();
     for a in 0u8..128 {
-        let s = String::from_utf8(vec![a]).unwrap();
-        let doc = format!("\"{}\"", json_str(&s));
-        match serde_json::from_str::<String>(&doc) {
-            Ok(back) if back == s => {}
-            _ => bad.push(a),
+        for b in 0u8..129 {
+            let v = if b == 128 { vec![a] } else { vec![a, b] };
+            let s = String::from_utf8(v).unwrap();
+            let doc = format!("\"{}\"", json_str(&s));
+            match serde_json::from_str::<String>(&doc) {
+                Ok(back) if back == s => {}
+                _ => if !bad.contains(&a) { bad.push(a) },
+            }
         }
     }
-    println!("NATIVE-FALLBACK json_str: single bytes that do not round-trip through a JSON parser: {:?}", bad);
+    println!("NATIVE-FALLBACK json_str: first bytes of 1- and 2-byte strings that do not round-trip through a JSON parser: {:?}", bad);
     assert!(bad.is_empty(), "json_str produces invalid JSON for bytes {:?}", bad);
 }
